@@ -1,0 +1,92 @@
+//! Verification hooks, compiled only with the cargo feature `verif-hooks` (off by default).
+//!
+//! The library has no synchronisation points of its own, so a deterministic scheduler that wants
+//! to interleave caller threads needs places where it can take control. With the feature enabled,
+//! the evaluator, the tokenizer, the tree builder, the tree iterators and `HashMapContext` call
+//! [`point`] at the sites listed in [`Site`]; if a hook was installed with [`install`], it is
+//! invoked there, otherwise nothing happens. The hooks never change what the library computes.
+
+use std::sync::OnceLock;
+
+/// The places at which the library yields to an installed hook.
+#[derive(Clone, Copy, Debug, PartialEq, Eq, Hash, PartialOrd, Ord)]
+pub enum Site {
+    /// `Node::eval_with_context`, before each child is evaluated.
+    NodeChild,
+    /// `Node::eval_with_context`, before the operator is applied.
+    NodeOperator,
+    /// `Node::eval_with_context_mut`, before each child is evaluated.
+    NodeChildMut,
+    /// `Node::eval_with_context_mut`, before the operator is applied.
+    NodeOperatorMut,
+    /// `Operator::eval`, before `Context::get_value`.
+    OpGetValue,
+    /// `Operator::eval`, before `Context::call_function`.
+    OpCallFunction,
+    /// `Operator::eval`, before the builtin function lookup.
+    OpBuiltinLookup,
+    /// `Operator::eval`, before the builtin function is called.
+    OpBuiltinCall,
+    /// `Operator::eval_mut`, before `ContextWithMutableVariables::set_value`.
+    OpSetValue,
+    /// `Operator::eval_mut`, between the read and the write of an operator-assignment.
+    OpAssignReadWrite,
+    /// `HashMapContext::get_value`, on entry.
+    CtxGetValue,
+    /// `HashMapContext::call_function`, on entry.
+    CtxCallFunction,
+    /// `HashMapContext::set_value`, on entry.
+    CtxSetValue,
+    /// `Function::call`, before the closure runs.
+    FnBefore,
+    /// `Function::call`, after the closure returned.
+    FnAfter,
+    /// The token loop of the tokenizer.
+    TokenLoop,
+    /// The token loop of the tree builder.
+    TreeLoop,
+    /// `next` of the immutable tree iterator.
+    IterNext,
+    /// `next` of the mutable operator iterator.
+    IterMutNext,
+}
+
+impl Site {
+    /// All sites, in declaration order.
+    pub const ALL: [Site; 19] = [
+        Site::NodeChild,
+        Site::NodeOperator,
+        Site::NodeChildMut,
+        Site::NodeOperatorMut,
+        Site::OpGetValue,
+        Site::OpCallFunction,
+        Site::OpBuiltinLookup,
+        Site::OpBuiltinCall,
+        Site::OpSetValue,
+        Site::OpAssignReadWrite,
+        Site::CtxGetValue,
+        Site::CtxCallFunction,
+        Site::CtxSetValue,
+        Site::FnBefore,
+        Site::FnAfter,
+        Site::TokenLoop,
+        Site::TreeLoop,
+        Site::IterNext,
+        Site::IterMutNext,
+    ];
+}
+
+static HOOK: OnceLock<fn(Site)> = OnceLock::new();
+
+/// Installs the process-wide hook. Returns `false` if a hook was already installed.
+pub fn install(hook: fn(Site)) -> bool {
+    HOOK.set(hook).is_ok()
+}
+
+/// Calls the installed hook, if any.
+#[inline]
+pub(crate) fn point(site: Site) {
+    if let Some(hook) = HOOK.get() {
+        hook(site);
+    }
+}
